@@ -596,6 +596,41 @@ def scenarios_conv(seed, n, op='from_data', max_depth=3, classes=True, history=0
     return out
 
 
+def scenarios_union_boundary(seed, n, ops=('from_data', 'roundtrip', 'convert2')):
+    """C11 / C05 / C06: unions whose LEFT member passes the value's type check but refuses it BY VALUE (its constructor raises),
+    so that a later member answers -- in both directions, bare and nested"""
+    import math as _m
+    g = random.Random(seed)
+    cases = [(['float', 'int'], [10 ** 400, -10 ** 400, 2 ** 1024, 7]), (['complex', 'int'], [10 ** 400, 3]), (['float', 'complex', 'int'], [-10 ** 400]),
+             (['Fraction', 'float'], [_m.inf, -_m.inf, 2.5]), (['Fraction', 'str'], ['1/0', 'abc', '3/4']), (['Decimal', 'str'], ['abc', '2020-02-29', '1.5']),
+             (['Decimal', 'date'], ['2020-02-29', __import__('datetime').date(2020, 2, 29)]), (['date', 'str'], ['tbd', '2020-01-02']),
+             (['Decimal', 'datetime', 'str'], [__import__('datetime').datetime(2020, 1, 2, 3, 4, 5)]), (['date', 'datetime'], [__import__('datetime').datetime(2020, 1, 2, 3, 4, 5)]),
+             # a later member's value that an EARLIER member accepts as an object (a datetime is a date): the serialiser must write it whole
+             (['date', 'datetime'], ['2020-01-02T03:04:05', '2020-01-02', '2021-12-31T23:59:59']), (['time', 'date', 'datetime'], ['2020-01-02T03:04:05']), (['time', 'datetime', 'str'], ['2020-01-02T03:04:05', 'x']),
+             (['datetime', 'Fraction', 'str'], ['1/2', 'soon']), (['float', 'Fraction', 'int'], [10 ** 400])]
+    out = []
+    for i in range(n):
+        r = random.Random(g.randrange(1 << 62))
+        members, vals = r.choice(cases)
+        v = r.choice(vals)
+        ty = {'union': list(members)}
+        wire = ENC.enc(v)
+        decl = {'enums': [], 'subs': [], 'classes': []}
+        shape = r.choice(['bare', 'list', 'dict', 'field', 'field', 'optional'])
+        if shape == 'list':
+            ty, wire = {'seq': ['list', ty]}, {'l': [wire, wire]}
+        elif shape == 'dict':
+            ty, wire = {'map': ['dict', ['str', ty]]}, {'d': [['k', wire]]}
+        elif shape == 'optional':
+            ty = {'union': list(members) + ['NoneType']}
+        elif shape == 'field':
+            name = f'Ub{seed % 1000}x{i}'
+            decl['classes'].append({'name': name, 'fields': [{'name': 'x', 'ty': ty}, {'name': 'n', 'ty': 'int', 'default': {'value': {'i': '0'}}}], 'opts': {}, 'hook': None})
+            ty, wire = {'cls': [name, []]}, {'d': [['x', wire]]}
+        out.append({'id': f'ub{seed}:{i}', 'decl': decl, 'op': r.choice(ops), 'ty': ty, 'val': wire, 'spell': r.randrange(2), 'stream': 'union-boundary'})
+    return out
+
+
 def scenarios_union_history(seed, n, op='roundtrip'):
     """unions whose members overlap, reached through a declared type (a dataclass field, a list element); first values only a
     LATER member takes, then a value an earlier member takes too: which member answers must not depend on the history"""
@@ -879,6 +914,20 @@ def scenarios_construct(seed, n):
             elif r.random() < 0.1:
                 f['spec'] = {'exclude': True}     # written never, but a constructor parameter like any other
             d['fields'].append(f)
+        if r.random() < 0.2 and not kw:
+            # two fields whose types are unions of the SAME members in opposite orders (equal for `typing`, different converters):
+            # each argument is converted by its own field's type -- whichever of the two the process saw first
+            pair = r.choice([(['int', 'float'], 3), (['bool', 'int'], 1), ([{'seq': ['list', 'int']}, {'seq': ['tuple', 'int']}], [1, 2])])
+            a, b = ('lo', 'hi') if r.random() < 0.5 else ('hi', 'lo')
+            for fn, mem in ((a, pair[0]), (b, pair[0][::-1])):
+                f = {'name': fn, 'ty': {'union': list(mem)}}
+                if seen_default:
+                    f['default'] = {'value': ENC.enc(pair[1])}
+                d['fields'].append(f)
+            fnames = fnames + [a, b]
+            twin_val = pair[1]
+        else:
+            twin_val = None
         inner_cls = None
         if r.random() < 0.3:
             # a field whose type is another dataclass: the constructor converts an instance passed for it like any other argument
@@ -905,10 +954,13 @@ def scenarios_construct(seed, n):
                 noinit['spec']['exclude'] = True
         if r.random() < 0.2:
             d['hook'] = r.choice(['raise_always', 'reject_neg:' + fnames[0]])
+        elif d['opts'].get('frozen') is False and r.random() < 0.6:
+            # a validation hook that NORMALISES a field by plain assignment (allowed: the class is not frozen)
+            d['hook'] = 'assign:' + r.choice([f['name'] for f in d['fields'] if f['ty'] != 'KW_ONLY'])
         hg.class_info[name] = d
         real = [f for f in d['fields'] if f['ty'] != 'KW_ONLY' and f is not noinit]
         supplied = [f for f in real if r.random() < 0.6]
-        path = r.choice(['construct', 'construct', 'unchecked', 'from_data_struct', 'from_data_tuple'])
+        path = r.choice(['construct', 'construct', 'unchecked', 'from_data_struct', 'from_data_tuple', 'fromdict'])
         vals = {}
         for f in supplied:
             p = r.random()
@@ -916,13 +968,26 @@ def scenarios_construct(seed, n):
             if p < 0.15:
                 v = hg.mutate(v)
             vals[f['name']] = v
+        if twin_val is not None:
+            for fn in ('lo', 'hi'):
+                if fn in vals or r.random() < 0.7:
+                    vals[fn] = twin_val
         if inner_cls and 'inner' in vals and path in ('construct', 'unchecked'):
             xv = r.choice([5, 5, 'bad', 2.5, True])
             vals['inner'] = r.choice([{'x': xv}, _ObjWire({'obj': [inner_cls, [['x', ENC.enc(xv)], ['w', 'q']], ['x', 'w']]}),
                                       _ObjWire({'obj': [inner_cls, [['x', ENC.enc(xv)], ['w', 'w']], ['x']]})])
         sc = {'id': f'k{seed}:{i}', 'decl': {'enums': [], 'subs': [], 'classes': ([hg.class_info[inner_cls]] if inner_cls else []) + [d]},
               'cls': name, 'stream': path, 'spell': 0}
-        if path in ('construct', 'unchecked'):
+        if path == 'fromdict':
+            # the public unchecked constructor from a (possibly partial) dict of field values, with or without an explicit record
+            try:
+                sc.update(op='fromdict', args=[], kwargs=[[k, ENC.enc(v)] for k, v in vals.items()])
+                if r.random() < 0.5:
+                    sc['set'] = [k for k in vals if r.random() < 0.6]
+                json.dumps(sc)
+            except Exception:
+                continue
+        elif path in ('construct', 'unchecked'):
             # positional for a prefix of the positional fields, keywords for the rest
             pos = []
             kwf = False
@@ -2048,7 +2113,20 @@ def scenarios_generic_nested(seed, n, op='from_data'):
         fty = r.choice([{'seq': ['list', it]}, {'map': ['dict', ['str', it]]}, {'union': [it, 'NoneType']}, it, {'tuple': [it, 'int']},
                         {'cls': [inner, [it]]}])
         do = {'name': outer, 'fields': [{'name': 'items', 'ty': fty}], 'opts': {}, 'hook': None, 'tvars': ['T']}
-        ge.decl['classes'] += [di, do]
+        named_bare = r.random() < 0.25
+        if named_bare:
+            # a NAMED, still generic subclass of the subscripted inner class (`class GN(GI[T]): code: int = 0`), used BARE as a field
+            # type of the generic outer class: the annotation mentions no type variable, so subscripting the outer class leaves it alone
+            gn = ge.fresh('GN')
+            dn = {'name': gn, 'fields': [{'name': 'code', 'ty': 'int', 'default': {'value': {'i': '0'}}}], 'opts': {}, 'hook': None,
+                  'base': {'cls': [inner, [tv('T')]]}, 'tvars': ['T']}
+            bare = {'cls': [gn, []]}
+            fty = r.choice([bare, {'seq': ['list', bare]}, {'union': [bare, 'NoneType']}])
+            do = {'name': outer, 'fields': [{'name': 'items', 'ty': fty}, {'name': 'n', 'ty': tv('T'), 'default': {'value': None}}], 'opts': {}, 'hook': None, 'tvars': ['T']}
+            ge.decl['classes'] += [di, dn, do]
+            ge.class_info[gn] = dn
+        else:
+            ge.decl['classes'] += [di, do]
         ge.class_info[inner], ge.class_info[outer] = di, do
         arg = r.choice(['int', 'str', 'bool', 'float'])
         via_sub = r.random() < 0.3
@@ -2062,13 +2140,15 @@ def scenarios_generic_nested(seed, n, op='from_data'):
             ty = {'cls': [outer, [arg]]}
         leaf = r.choice([1, 's', True, 2.5, None, [1], 7, 'x', 1j])
         lv = {'v': leaf}
+        if named_bare:
+            lv = {'v': leaf, 'code': 5}
         if 'seq' in fty:
             items = [lv]
         elif 'map' in fty:
             items = {'k': lv}
         elif 'tuple' in fty:
             items = [lv, 3]
-        elif 'cls' in fty and fty is not it:
+        elif 'cls' in fty and fty is not it and not named_bare:
             items = {'v': lv}
         else:
             items = lv
@@ -2080,6 +2160,8 @@ def scenarios_generic_nested(seed, n, op='from_data'):
         # what the statement says, computed from the kinds alone: the leaf must be admissible for the type the class was subscripted with
         ok = {'int': (int,), 'str': (str,), 'bool': (bool,), 'float': (int, float)}[arg]
         expect = 'accept' if isinstance(leaf, ok) and not (arg == 'bool' and type(leaf) is not bool) else 'reject'
+        if named_bare:
+            expect = 'accept'      # the bare generic's own variable is unbound (= Any)
         out.append({'id': f'gn{seed}:{i}', 'decl': ge.decl, 'op': op, 'ty': ty, 'val': wire, 'spell': 0, 'stream': 'generic-nested', 'expect': expect})
     return out
 
